@@ -20,12 +20,12 @@ import (
 
 // c16Case is the fully expanded case written to replay files.
 type c16Case struct {
-	RPC    string   `json:"rpc"`
-	Fault  mutation `json:"fault"`  // Op "none": clean attempt; "dial-fail": stream cannot be opened
+	RPC    string    `json:"rpc"`
+	Fault  mutation  `json:"fault"`            // Op "none": clean attempt; "dial-fail": stream cannot be opened
 	Fault2 *mutation `json:"fault2,omitempty"` // thorough: a second, PRNG-chosen corruption
-	Basis  string   `json:"basis"`  // same | behind:k | fork:k | fork-known:k
-	Inputs string   `json:"inputs"` // confirmed | unconfirmed
-	Phase  string   `json:"phase"`  // abort | corrupt | storm | clean-after-storm
+	Basis  string    `json:"basis"`            // same | behind:k | fork:k | fork-known:k
+	Inputs string    `json:"inputs"`           // confirmed | unconfirmed
+	Phase  string    `json:"phase"`            // abort | corrupt | storm | clean-after-storm
 }
 
 func (c c16Case) sig() string {
@@ -49,6 +49,40 @@ func (c c16Case) faultPoint() string {
 	default:
 		return fmt.Sprintf("%s-%s%d", c.Fault.Op, c.Fault.Dir, c.Fault.Msg)
 	}
+}
+
+// cause is the last component of a violation signature: the basis relation
+// if there is one (the same root cause shows at every fault point then), the
+// renter-supplied basis if that is what was corrupted, else the fault point.
+// For a double corruption the more specific of the two faults decides.
+func (c c16Case) cause() string {
+	if c.Fault.Op == "dial-fail" {
+		return "dial-fail"
+	}
+	faults := []mutation{c.Fault}
+	if c.Fault2 != nil {
+		faults = append(faults, *c.Fault2)
+	}
+	for _, f := range faults {
+		if f.Dir == "R" && f.Msg == 0 && strings.HasPrefix(f.Path, "Basis") {
+			return "renter-basis-unusable-for-host"
+		}
+	}
+	switch {
+	case strings.HasPrefix(c.Basis, "fork"):
+		return "renter-basis-unusable-for-host"
+	case strings.HasPrefix(c.Basis, "behind"):
+		return "renter-basis-behind"
+	}
+	if c.Fault2 != nil {
+		for _, f := range faults {
+			if f.Dir == "H" && f.Msg == 1 {
+				return c16Case{Fault: f}.faultPoint()
+			}
+		}
+		return c16Case{Fault: c.Fault}.faultPoint()
+	}
+	return c.faultPoint()
 }
 
 // c16Lab is one two-node lab dedicated to one RPC.
@@ -244,15 +278,7 @@ func (x *c16Lab) attempt(cse c16Case, noCleanup bool) (succeeded bool) {
 	// signature = class : rpc : cause, where the cause is the basis relation if
 	// there is one (the same root cause shows at every fault point then) and the
 	// fault point otherwise
-	cause := cse.faultPoint()
-	if cse.Fault.Op != "dial-fail" {
-		switch {
-		case strings.HasPrefix(cse.Basis, "fork"), cse.Fault.Dir == "R" && cse.Fault.Msg == 0 && strings.HasPrefix(cse.Fault.Path, "Basis"):
-			cause = "renter-basis-unusable-for-host"
-		case strings.HasPrefix(cse.Basis, "behind"):
-			cause = "renter-basis-behind"
-		}
-	}
+	cause := cse.cause()
 	viol := func(class, what string, detail any) {
 		r.Violation(fmt.Sprintf("%s:%s:%s", class, x.rpc, cause), what, cse, detail)
 	}
